@@ -33,6 +33,9 @@ type runConfig struct {
 	curJob                *job
 	verbose               bool
 	noIfConv              bool
+	profile               bool
+	siteMu                sync.Mutex
+	sites                 map[string]int
 	fallbackSolver        string
 	fallbackTimeoutMs     int
 }
@@ -266,4 +269,31 @@ func sortedKeys[V any](m map[string]V) []string {
 	}
 	sort.Strings(ks)
 	return ks
+}
+
+func (c *runConfig) noteSite(s string) {
+	c.siteMu.Lock()
+	if c.sites == nil {
+		c.sites = map[string]int{}
+	}
+	c.sites[s]++
+	c.siteMu.Unlock()
+}
+
+func (c *runConfig) dumpSites() {
+	type kv struct {
+		k string
+		v int
+	}
+	var l []kv
+	for k, v := range c.sites {
+		l = append(l, kv{k, v})
+	}
+	sort.Slice(l, func(i, j int) bool { return l[i].v > l[j].v })
+	for i, e := range l {
+		if i >= 25 {
+			break
+		}
+		fmt.Printf("    %8d %s\n", e.v, e.k)
+	}
 }
